@@ -14,7 +14,15 @@
  * Printing
  * ======================================================================== */
 
-void val_print(NanoValue v, FILE *out) {
+/* Containers print their elements recursively; a value nested deeper than
+ * this prints as "..." instead of overflowing the C stack */
+#define PRINT_MAX_DEPTH 1000
+
+static void print_value(NanoValue v, FILE *out, int depth) {
+    if (depth > PRINT_MAX_DEPTH) {
+        fprintf(out, "...");
+        return;
+    }
     switch (v.tag) {
         case TAG_VOID:
             fprintf(out, "void");
@@ -53,7 +61,7 @@ void val_print(NanoValue v, FILE *out) {
                 fprintf(out, "[");
                 for (uint32_t i = 0; i < v.as.array->length; i++) {
                     if (i > 0) fprintf(out, ", ");
-                    val_print(v.as.array->elements[i], out);
+                    print_value(v.as.array->elements[i], out, depth + 1);
                 }
                 fprintf(out, "]");
             } else {
@@ -68,7 +76,7 @@ void val_print(NanoValue v, FILE *out) {
                     if (v.as.sval->field_names && v.as.sval->field_names[i]) {
                         fprintf(out, "%s: ", vmstring_cstr(v.as.sval->field_names[i]));
                     }
-                    val_print(v.as.sval->fields[i], out);
+                    print_value(v.as.sval->fields[i], out, depth + 1);
                 }
                 fprintf(out, "}");
             } else {
@@ -80,7 +88,7 @@ void val_print(NanoValue v, FILE *out) {
                 fprintf(out, "variant(%u", v.as.uval->variant);
                 for (uint32_t i = 0; i < v.as.uval->field_count; i++) {
                     fprintf(out, ", ");
-                    val_print(v.as.uval->fields[i], out);
+                    print_value(v.as.uval->fields[i], out, depth + 1);
                 }
                 fprintf(out, ")");
             } else {
@@ -92,7 +100,7 @@ void val_print(NanoValue v, FILE *out) {
                 fprintf(out, "(");
                 for (uint32_t i = 0; i < v.as.tuple->count; i++) {
                     if (i > 0) fprintf(out, ", ");
-                    val_print(v.as.tuple->elements[i], out);
+                    print_value(v.as.tuple->elements[i], out, depth + 1);
                 }
                 fprintf(out, ")");
             } else {
@@ -112,6 +120,10 @@ void val_print(NanoValue v, FILE *out) {
             fprintf(out, "unknown(%u)", v.tag);
             break;
     }
+}
+
+void val_print(NanoValue v, FILE *out) {
+    print_value(v, out, 0);
 }
 
 void val_println(NanoValue v) {
